@@ -7,7 +7,8 @@ IMPORTS = ['Engine.Db', 'Engine.DbCursor', 'Engine.DbFacts', 'Engine.RunDb', 'En
 THEOREMS = ['C14_cursor_visits_snapshot', 'C14_query_snapshot_at_first_next', 'C14_retract_at_most_once',
             'C14_retract_at_most_once_from_init', 'C14_no_lost_update', 'C14_cursor_finite', 'C14_retract_goal_finite',
             'C14_compiled_no_lost_update', 'C14_compiled_retract_at_most_once', 'C14_retract_cursor_in_snapshot_order',
-            'C14_compiled_run_is_cursor_history', 'C14_compiled_cursor_visits_snapshot', 'C14_compiled_history_no_lost_update']
+            'C14_compiled_run_is_cursor_history', 'C14_compiled_cursor_visits_snapshot', 'C14_compiled_history_no_lost_update',
+            'C14_compiled_cut_not_propagated', 'C14_compiled_cut_ends_own_clause_only']
 RULE = ('(a) event histories with 1-4 simultaneously suspended cursors (queries and retracts, started through the API, '
         'compiled clauses, call/1 and goals held in variables) mostly on ONE predicate, with asserta/assertz/retractall/'
         'clear and answers of other retract cursors between any two next(); all predicates read back after every event; '
